@@ -389,6 +389,8 @@ def export_plan(session: Any, uni: Optional[Universe] = None) -> Dict[str, Any]:
                            list(st.link.right_index.index)], requested=False)
         elif isinstance(st, TransformFrameworkStep):
             d.update(kind="TFS", uuids=[r(st.uuid)], from_cfw=st.from_framework.__name__, to_cfw=st.to_framework.__name__,
+                     from_group=(uni.group_display(st.from_feature_group) if uni else st.from_feature_group.__name__),
+                     to_group=(uni.group_display(st.to_feature_group) if uni else st.to_feature_group.__name__),
                      link_id=r(st.link_id) if st.link_id else None, requested=False)
         steps.append(d)
     return {"steps": steps, "n_uuids": len(ren), "_ren": ren}
@@ -417,3 +419,82 @@ def canon_plan(p: Dict[str, Any]) -> Any:
             extra = f"{sorted(desc.get(u, '?') for u in s['left_uuids'])}|{sorted(desc.get(u, '?') for u in s['right_uuids'])}"
         out.append((s["kind"], tuple(me), tuple(rq), extra))
     return sorted(out)
+
+
+# ------------------------------------------------------------------------------------------------------------
+# known-defect domains of the planner / data plane, as decidable predicates over an exported plan
+# ------------------------------------------------------------------------------------------------------------
+
+def _producers(p: Dict[str, Any]) -> Dict[int, Dict[str, Any]]:
+    return {u: s for s in p["steps"] for u in s["uuids"]}
+
+
+def _wait_closure(p: Dict[str, Any], s: Dict[str, Any]) -> Set[int]:
+    prod = _producers(p)
+    seen: Set[int] = set()
+    todo = [s]
+    while todo:
+        x = todo.pop()
+        for u in x["req"]:
+            y = prod.get(u)
+            if y is not None and y["sid"] not in seen:
+                seen.add(y["sid"])
+                todo.append(y)
+    return seen
+
+
+def kf_tfs_partial_requirement(p: Dict[str, Any]) -> List[Tuple[int, int, int]]:
+    """(tfs sid, consumer sid, uuid): a consumer of the transform's target group needs a column produced on the
+    transform's source framework/group which the transform step does not (transitively) wait for."""
+    prod = _producers(p)
+    out = []
+    for t in p["steps"]:
+        if t["kind"] != "TFS" or t.get("link_id") is not None:
+            continue
+        tw = _wait_closure(p, t)
+        for c in p["steps"]:
+            if c["kind"] != "FG" or c["cfw"] != t["to_cfw"] or c["group"] != t["to_group"]:
+                continue
+            for u in c["req"]:
+                x = prod.get(u)
+                if x is None or x["kind"] != "FG":
+                    continue
+                if x["cfw"] == t["from_cfw"] and x["sid"] not in tw and c["sid"] not in _wait_closure(p, x):
+                    # x must be part of the data the transform copies: same source object lineage
+                    out.append((t["sid"], c["sid"], u))
+    return out
+
+
+def kf_framework_roundtrip(p: Dict[str, Any]) -> List[Tuple[int, int]]:
+    """(consumer sid, earlier step sid): an FG step that consumes a transform step although an earlier object of its own
+    framework class already lists the consumer's lookup uuid among its children (registry lookup returns that one)."""
+    out = []
+    for c in p["steps"]:
+        if c["kind"] != "FG" or not c["tfs_ids"]:
+            continue
+        for r in p["steps"]:
+            if r is c or r["kind"] != "FG" or r["cfw"] != c["cfw"]:
+                continue
+            if c["any_uuid"] in r["children_if_root"] and r["sid"] in _wait_closure(p, c):
+                out.append((c["sid"], r["sid"]))
+    return out
+
+
+def kf_tfs_missing(p: Dict[str, Any]) -> List[Tuple[int, int]]:
+    """(consumer sid, uuid): an FG step requires a feature produced on another framework, but no transform step from that
+    framework to its own is among its requirements (ExecutionPlan.add_tfs only inspects the parents of ONE feature of the
+    step, features.any_uuid)."""
+    prod = _producers(p)
+    out = []
+    for c in p["steps"]:
+        if c["kind"] != "FG":
+            continue
+        tfs_from = {prod[u]["from_cfw"] for u in c["req"] if u in prod and prod[u]["kind"] == "TFS" and prod[u]["to_cfw"] == c["cfw"]}
+        joined = any(u in prod and prod[u]["kind"] == "JOIN" for u in c["req"])
+        for u in c["req"]:
+            x = prod.get(u)
+            if x is None or x["kind"] != "FG" or x["cfw"] == c["cfw"] or joined:
+                continue
+            if x["cfw"] not in tfs_from:
+                out.append((c["sid"], u))
+    return out
